@@ -150,16 +150,17 @@ CLAIMED = {
              'host recursion limit is runtime (known finding); reading of rule texts is C16.',
         technique='Coq lemmas on interpreter primitives + vm_compute certificates on the regenerated grammar + vm_compute correspondence with time-outs'),
     'C08': dict(
-        text='Machine-checked proof (Coq) about the executable matcher model (own embedding enumeration + the three constraint filters): SOUNDNESS '
-             'for every fragment and molecule - each returned tuple has one entry per declared atom in declaration order, its entries are distinct, '
-             'each satisfies its atom\'s element class and charge, every declared bond exists with a compatible type, and all bond / atom / stereo '
-             'constraints and the molecule prefix hold; completeness relative to the raw embeddings (filters drop nothing that passes); a failing '
-             'molecule prefix gives no match. PARTIAL: completeness of the enumeration and layout/label independence are decided by the '
-             'bounded-exhaustive correspondence (977 small fragments x small molecules + random) and the layout/label variant oracle.',
+        text='Machine-checked proof (Coq) about the executable matcher model (own embedding enumeration + the three constraint filters): for every '
+             'fragment the reader accepts and every molecule, a tuple is returned IF AND ONLY IF it is an embedding the fragment denotes (declarative '
+             'Denotes: one distinct molecule atom per declared atom, of its element class and charge, every declared bond present with a compatible '
+             'type - no reference to enumeration order) that passes the molecule prefix and all bond / atom / stereo constraints; tuples are in '
+             'declaration order and none is returned twice; reader-accepted fragments are proved well-formed. Layout/label independence of the '
+             'text reader and the RDKit primitives are decided by the bounded-exhaustive correspondence (977 small fragments x small molecules + '
+             'random) and the layout/label variant oracle.',
         design='5 / shared core G, C08',
         note=TB + 'Closed under the global context. RDKit Atom/Bond match primitives are rendered by qatom_ok/qbond_ok (calibrated by the '
              'correspondence); cap of 10000 raw embeddings is a guard.',
-        technique='Coq soundness proof by induction over the placement order + vm_compute correspondence on exported molecule graphs'),
+        technique='Coq soundness and completeness proofs (induction over the placement order; reader invariant) + vm_compute correspondence on exported molecule graphs'),
     'C02': dict(
         text='Machine-checked proof (Coq), PARTIAL: finite theorem over the nine scheme files REGENERATED from /repo on every run and read by the Coq '
              'parser+reader (every pattern readable, remaps well-formed, chain-free, unique sources, no molecule prefix); for all inputs: an atom '
